@@ -62,6 +62,7 @@ fn main() {
             return;
         }
         "C04-direct" => vcore::props::c04::run_direct(&args, &mut rep),
+        "C04-scalars" => vcore::props::c04::run_scalars(&args, &mut rep),
         "C04-cli" => vcore::props::c04::run_cli(&args, &mut rep),
         other => {
             eprintln!("unknown workload {}", other);
